@@ -1650,11 +1650,22 @@ class Intervals:
             if a is not None and tr is not None and a[0] > tr[0]:
                 return True, f"operand in [{a[0]}, {a[1]}] excludes {ty}::MIN"
             return False, f"operand {a} may be {ty}::MIN"
-        if kind in ("div_zero", "rem_zero") and ops:
-            b = self.rng(st, ops[0])
-            if b is not None and (b[0] > 0 or b[1] < 0):
-                return True, f"divisor in [{b[0]}, {b[1]}] excludes 0"
-            return False, f"divisor {b} may be 0"
+        if kind in ("div_zero", "rem_zero"):
+            # the Assert's operand is the *dividend*; the divisor is the operand the condition `Eq(divisor, 0)` tests
+            cl = op_local(cond)
+            c = st.cmp.get(cl) if cl is not None else None
+            if c is not None and c[0] in ("Eq", "Ne"):
+                d_op = None
+                for x, y in ((c[1], c[2]), (c[2], c[1])):
+                    k = op_const(y) if y[0] == "k" else None
+                    if k is not None and k[1] == 0:
+                        d_op = x
+                if d_op is not None:
+                    b = self.rng(st, d_op)
+                    if b is not None and (b[0] > 0 or b[1] < 0):
+                        return True, f"divisor in [{b[0]}, {b[1]}] excludes 0"
+                    return False, f"divisor {b} may be 0"
+            return False, "divisor not identified"
         if kind == "bounds" and len(ops) == 2:
             ln, ix = self.rng(st, ops[0]), self.rng(st, ops[1])
             if ln is not None and ix is not None and ix[1] < ln[0]:
